@@ -616,6 +616,22 @@ class Interp:
                     continue
                 except _Break:
                     break
+        elif isinstance(st, ast.While):
+            n_iter = 0
+            broke = False
+            while self.truth(self.eval(st.test)):
+                n_iter += 1
+                if n_iter > 64:
+                    raise Undecided("while loop does not terminate within 64 iterations on the analysed configuration")
+                try:
+                    self.exec_block(st.body)
+                except _Continue:
+                    continue
+                except _Break:
+                    broke = True
+                    break
+            if not broke:
+                self.exec_block(st.orelse)
         elif isinstance(st, ast.Delete):
             for t in st.targets:
                 if isinstance(t, ast.Subscript):
@@ -969,10 +985,11 @@ class Interp:
                 if isinstance(base, Poly):
                     return base
                 if isinstance(base, (list, tuple)) and isinstance(e.slice, ast.Slice):
-                    lo = self._int(e.slice.lower, 0)
-                    hi = self._int(e.slice.upper, len(base))
-                    st = self._int(e.slice.step, 1)
-                    return list(base[lo:hi:st])
+                    lo = None if e.slice.lower is None else self._int(e.slice.lower, 0)
+                    hi = None if e.slice.upper is None else self._int(e.slice.upper, len(base))
+                    st = None if e.slice.step is None else self._int(e.slice.step, 1)
+                    r_ = list(base[lo:hi:st])
+                    return type(base)(r_) if type(base).__name__ == "T" else r_
                 raise Undecided("slicing")
             if isinstance(base, Obj) and "__getitem__" in self.externals:
                 try:
@@ -1099,10 +1116,13 @@ class Interp:
     def call(self, e: ast.Call):
         f = e.func
         name = A.call_attr(e)
-        if name in self.externals:
+        if name in self.externals and callable(self.externals[name]):
             xa = self.eval_args(e.args)
             xk = self.eval_kwargs(e.keywords)
-            return self.externals[name](xa, xk)
+            try:
+                return self.externals[name](xa, xk)
+            except NotHandled:
+                pass  # the model does not apply to this call shape (e.g. method form x.tolist())
         if isinstance(f, ast.Call):
             callee = self.eval(f)
             xa = self.eval_args(e.args)
@@ -1434,6 +1454,24 @@ class Interp:
                 if v.is_const():
                     return Poly.const(int(v.const_value()))
             raise Undecided(f"{name}() of a symbolic value")
+        if name == "repr" and isinstance(f, ast.Name) and len(args) == 1:
+            def _r(v):
+                if isinstance(v, str):
+                    return repr(v)
+                if isinstance(v, bool) or v is None:
+                    return repr(v)
+                if isinstance(v, Poly):
+                    return str(v)
+                if isinstance(v, Obj):
+                    return f"<{v.name}>"
+                if isinstance(v, tuple):
+                    return "(" + ", ".join(_r(x) for x in v) + ("," if len(v) == 1 else "") + ")"
+                if isinstance(v, list):
+                    return "[" + ", ".join(_r(x) for x in v) + "]"
+                if isinstance(v, dict):
+                    return "{" + ", ".join(f"{_r(k)}: {_r(x)}" for k, x in v.items()) + "}"
+                raise Undecided("repr of an unmodelled value")
+            return _r(ev(args[0]))
         if name == "next" and isinstance(f, ast.Name) and args:
             seq = self.iterable(ev(args[0]), "next")
             if seq:
@@ -1478,7 +1516,15 @@ class Interp:
                     if isinstance(v, Poly) and v.is_const():
                         return (1, v.const_value())
                     if isinstance(v, (tuple, list)):
-                        return (2, tuple(concrete(x) for x in v))
+                        parts = []
+                        for i_, x in enumerate(v):
+                            try:
+                                parts.append(concrete(x))
+                            except Undecided:
+                                if i_ == 0:
+                                    raise
+                                parts.append((3, ""))  # later components only break ties between equal leading keys
+                        return (2, tuple(parts))
                     raise Undecided("sorted: key is not a concrete string / number / tuple of these")
 
                 def keyof(x):
